@@ -391,15 +391,19 @@ def count_versions(obj):
         return 0
     manager = get_versioning_manager(obj)
     table_name = manager.option(obj, 'table_name') % obj.__table__.name
-    criteria = [
-        '%s = %r' % (pk, getattr(obj, pk))
-        for pk in get_primary_keys(obj)
-    ]
+    criteria = []
+    params = {}
+    for index, pk in enumerate(get_primary_keys(obj)):
+        # Key values are passed as bound parameters; interpolating their
+        # repr() into the SQL text breaks on quotes, backslashes etc.
+        param_name = 'pk_%d' % index
+        criteria.append('%s = :%s' % (pk, param_name))
+        params[param_name] = getattr(obj, pk)
     query = sa.text('SELECT COUNT(1) FROM %s WHERE %s' % (
         table_name,
         ' AND '.join(criteria)
     ))
-    return session.execute(query).scalar()
+    return session.execute(query, params).scalar()
 
 
 def changeset(obj):
